@@ -50,6 +50,6 @@ def replay(doc):
 
 
 def jobs(tier, seed):
-    n, shards = (4000, 8) if tier == "quick" else (80000, 16)
+    n, shards = (4000, 8) if tier == "quick" else (240000, 16)
     return [{"name": "hist-%d" % k, "kind": "hist", "n": n // shards, "seed": seed * 1000 + 600 + k,
              "shrink": 150 if tier == "quick" else 1500} for k in range(shards)]
